@@ -294,5 +294,6 @@ var verifC19Prop = vkit.NewProp([]string{c19.P}, "c19loki", verifC19Gen, verifC1
 func TestVerifC19Loki(t *testing.T) {
 	verifC19Setup()
 	defer verifC19Teardown()
+	verifC19Prop.CrashFile = true
 	verifC19Prop.Check(t)
 }
